@@ -296,3 +296,47 @@ def run(facts, rep, tier):
              "inlines hands them out in child_blocks / child_inlines (audited: table cells).")
     from . import children
     children.rule_child_tables(facts, rep, "C13-R8")
+    rep.rule("C13-R3c", "A nested SectionsBuilder (the content of a block quote) records its blocks' lines in its OWN table: that table has to be taken over by the builder that made it "
+             "(`.nodes_map()` merged into `self.nodes_map`), otherwise no block inside a quote has a line - a link there is reported at line 0 and the quote's blocks are invisible to line lookups.")
+    rule_r3c(facts, rep)
+    rep.rule("C13-R9", "= C01-R1 (stored-verbatim): the url the reader stores is the source's destination byte for byte - rename / prepare-rename measure the link's target by it, so a "
+             "destination that was cut (fragment stripped, case folded) shifts every range derived from its length.")
+    from . import c01 as _c01
+    _c01.rule_r1(facts, _c01._Only(rep, "stored-verbatim"), "C13-R9")
+
+
+def rule_r3c(facts, rep, rid="C13-R3c"):
+    n = 0
+    for f in facts.body_fns():
+        if f.crate != "liwe" or "::tests::" in f.def_ or "::test::" in f.def_ or f.kind == "closure":
+            continue
+        c = None
+        i = 0
+        for x in fb.walk(f.body):
+            if x.get("k") in ("call", "mcall") and (fb.callee(x) or "").endswith("SectionsBuilder::new"):
+                c = c or ctx(f)
+                rep.saw_fn(f)
+                n += 1
+                key = "%s|SectionsBuilder::new|%d|line-table-taken-over" % (f.def_, i)
+                i += 1
+                # what happens to the builder: the value must flow into a `.nodes_map()` call (directly, or through the local it is bound to)
+                used = False
+                par = c.parent_of.get(id(x))
+                if par is not None and par.get("k") == "mcall" and par.get("recv") is x:
+                    used = (fb.callee(par) or "").endswith("SectionsBuilder::nodes_map") or par["name"] == "nodes_map"
+                    if not used:
+                        # builder.some_method(): look for a nodes_map call on the same chain
+                        used = any(m_.get("name") == "nodes_map" for m_ in chain_up(c, x))
+                if not used:
+                    # bound to a local that is later asked for its table
+                    for y in fb.walk(f.body):
+                        if y.get("k") == "mcall" and y["name"] == "nodes_map" and y is not par:
+                            if q.has_call(c.vprov(y["recv"]), "SectionsBuilder::new"):
+                                used = True
+                if used:
+                    rep.ok(rid, key, "the builder's nodes_map() is read", loc(f, x))
+                else:
+                    rep.violation(rid, key, "the nested builder is dropped with its line table: blocks built by it (the content of a block quote) have no line range - a link inside a quote is "
+                                  "reported at line 0, and no line inside the quote resolves to the block that covers it", loc(f, x))
+    rep.floor(rid, "SectionsBuilder::new call sites", n, 3)
+
